@@ -135,6 +135,88 @@ def sat_state(cx, rng, regs, ptrs, flag, conds):
     return None
 
 
+def memmerge_part(run, quick):
+    """overlapping constant stores through one pointer in both maps: per-byte alternatives of the merged map vs the
+    Gallina model coq/C19/MemMerge.v (merge_mem) and vs the byte-level reference"""
+    cx = c01.Ctx()
+    E = cx.E
+    from amoco.cas.mapper import merge
+    rng = random.Random(run.seed * 7927 + 19)
+    p = E.reg("p", 32)
+    rows = []
+    for it in range(300 if quick else 6000):
+        maps, descs = [], []
+        for _ in range(2):
+            m = cx.mapper()
+            d = []
+            for _k in range(rng.randrange(0, 5)):
+                sz = rng.choice([1, 1, 2, 4])
+                off = rng.randrange(-2, 8)
+                val = [rng.getrandbits(8) for _ in range(sz)]
+                m[E.mem(p, 8 * sz, disp=off)] = E.cst(int.from_bytes(bytes(val), "little"), 8 * sz)
+                d.append((off, val))
+            maps.append(m)
+            descs.append(d)
+        try:
+            mm = merge(maps[0], maps[1], widening=False)
+        except Exception as x:
+            run.violation("merge-raised|memory|" + type(x).__name__, "merge raised %r on two maps of constant stores" % (x,), {"m1": descs[0], "m2": descs[1]})
+            continue
+        obs = []
+        ref_bad = None
+        for a in range(-4, 13):
+            try:
+                r = mm[E.mem(p, 8, disp=a)].simplify()
+            except Exception as x:
+                ref_bad = ("lookup raised %r" % (x,), a)
+                break
+            alts = list(r.l) if r._is_vec else [r]
+            if r._is_top and not r._is_vec:
+                obs = None
+                break
+            enc = []
+            for x in alts:
+                x = x.simplify()
+                enc.append(x.v & 0xFF if x._is_cst else -1)
+            obs.append((a, enc))
+            # byte-level reference: last store covering the address in each map
+            want = set()
+            for d in descs:
+                c = -1
+                for off, val in d:
+                    if off <= a < off + len(val):
+                        c = val[a - off]
+                want.add(c)
+            if not any(off <= a < off + len(val) for d in descs for off, val in d):
+                want = {-1}
+            if set(enc) != want and ref_bad is None:
+                ref_bad = ("byte p%+d of the merged map lists %s, the two maps hold %s there" % (a, sorted(set(enc)), sorted(want)), a)
+        run.count(("memmerge", repr(descs)), nontrivial=sum(len(d) for d in descs) >= 2)
+        if ref_bad:
+            run.violation("memory-merge|byte-alternatives", "merge of overlapping stores: " + ref_bad[0], {"m1": descs[0], "m2": descs[1], "address": ref_bad[1]})
+            continue
+        if obs is not None:
+            st = lambda d: clist(["(%d, %s)" % (off, clist(map(str, val))) for off, val in d])
+            rows.append("(%s, %s, %s)" % (st(descs[0]), st(descs[1]), clist(["(%d, %s)" % (a, clist(["(%d)" % v for v in enc])) for a, enc in obs])))
+    shards = [rows[i:i + 300] for i in range(0, len(rows), 300)]
+    texts = [("mm_%03d" % i, "From Coq Require Import ZArith List.\nImport ListNotations.\nRequire Import Amoco.C19.MemMerge.\nOpen Scope Z_scope.\n"
+              "Definition cases : list mm_case := [\n%s\n].\nEval vm_compute in (bad_from check_mm 0 cases).\n" % ";\n".join(sh)) for i, sh in enumerate(shards)]
+    res = common.coq_eval_many(run.work / "mm", texts)
+    n_ok = 0
+    for i, sh in enumerate(shards):
+        rc, out = res["mm_%03d" % i]
+        lists = common.parse_nat_list(out)
+        if rc != 0 or len(lists) != 1:
+            run.violation("model-eval|memory-merge", "memory-merge model evaluation failed", {"theorem_or_correspondence": "Amoco.C19.MemMerge.check_mm shard %d" % i, "output": out[-800:]}, found_input=False)
+            continue
+        n_ok += len(sh)
+        for k in lists[0][:3]:
+            run.violation("model-impl-correspondence|memory-merge", "merged memory differs from the model merge_mem",
+                          {"theorem_or_correspondence": "Amoco.C19.MemMerge.check_mm / C19_merge_overlapping_stores", "case(m1,m2,observed)": sh[k][:900]}, found_input=True)
+    run.cov["memory_merges_in_coq"] = n_ok
+    return n_ok
+
+
 def check(run):
     quick = run.tier == "quick"
     run.cov["rule"] = ("pair of maps (1..4 writes each over 5 registers, one flag register and 2 pointers x 2 displacements; constants, "
@@ -347,6 +429,7 @@ def check(run):
             run.violation("model-impl-correspondence|join", "vec([v1,v2]).simplify differs from the model's join",
                           dict(rows_meta[i * 500 + k], **{"theorem_or_correspondence": "Amoco.C19.Corr.check_mg", "case(v1,v2,widening,observed)": sh[k]}), found_input=False)
     run.cov["joins_in_coq"] = n_ok
+    n_ok += memmerge_part(run, quick)
     run.cov["traces_validated_against_impl"] = n_ok
     run.cov["trusted_base"] += ["harness/c19.py map generator, alternative extraction (by rendering, as amoco compares expressions)"]
     run.assumptions += ["path conditions are applied by the implementation (mapper.assume) before the comparison; the model starts after that step",
